@@ -1,6 +1,9 @@
 use std::collections::HashMap;
 use std::fmt::Display;
+#[cfg(not(locustdb_verif))]
 use std::time::{Duration, Instant};
+#[cfg(locustdb_verif)]
+use {std::time::Duration, locustdb_simrt::time::Instant};
 
 #[derive(Debug)]
 pub struct SimpleTracer {
